@@ -232,14 +232,22 @@ func redactFieldNamesFromPlanSummary(planSummary string) string {
 	if planSummary == "COLLSCAN" {
 		return planSummary
 	}
-	result := planSummary
-	fieldNames := ParsePlanSummary(planSummary)
-	for _, fieldName := range fieldNames {
-		hashed := HashName(fieldName)
-		result = strings.ReplaceAll(result, fieldName, hashed)
-	}
-	return result
+	// Rewrite only the index-key tokens inside each "IXSCAN { key: dir, ... }" block: a plain
+	// substring replacement also hits "IXSCAN" itself, other keys and already inserted hashes.
+	return planSummaryIndexRe.ReplaceAllStringFunc(planSummary, func(block string) string {
+		open := strings.Index(block, "{")
+		keys := planSummaryKeyRe.ReplaceAllStringFunc(block[open+1:len(block)-1], func(kv string) string {
+			m := planSummaryKeyRe.FindStringSubmatch(kv)
+			return HashName(m[1]) + m[2]
+		})
+		return block[:open+1] + keys + "}"
+	})
 }
+
+var (
+	planSummaryIndexRe = regexp.MustCompile(`IXSCAN\s*\{[^}]+\}`)
+	planSummaryKeyRe   = regexp.MustCompile(`([^\s,:{}][^,:{}]*?)(\s*:)`)
+)
 
 func traverseMapPath(path []string, operatorMap *orderedmap.OrderedMap[string, any], isSearchStage bool) (interface{}, bool) {
 	var current any = operatorMap
